@@ -42,10 +42,20 @@ def run_corpus(ctx, mod, prop: str) -> None:
         if line.strip():
             c = json.loads(line)
             if c["kind"] in mod.KINDS:
-                a = c["args"]
+                a = C.jsonable(c["args"])
                 by_kind.setdefault(c["kind"], []).append(tuple(a) if isinstance(a, list) else a)
     for k, cases in by_kind.items():
-        ctx.run_cases(mod.KINDS[k], f"corpus:{k}", cases, exhaustive=True)
+        # an input that was recorded on a CHANGED tree may not even be expressible on this one (a device type that only the change
+        # had, say): such an entry is skipped - the corpus exists to re-run known failing inputs, never to raise an alarm of its own
+        usable = []
+        for a in cases:
+            try:
+                mod.KINDS[k].impl(a)
+                usable.append(a)
+            except Exception as e:  # noqa
+                ctx.notes.append(f"corpus entry of kind {k} skipped: not expressible on this tree ({type(e).__name__})")
+        if usable:
+            ctx.run_cases(mod.KINDS[k], f"corpus:{k}", usable, exhaustive=True)
 
 
 def write_replay(prop: str, seed: int, payload: dict) -> str:
@@ -55,7 +65,7 @@ def write_replay(prop: str, seed: int, payload: dict) -> str:
     if os.path.exists(path):        # another run of the same check in the same second (checks running side by side)
         path = os.path.join(d, f"{prop}-{int(time.time())}-{seed}-{os.getpid()}.json")
     with open(path, "w") as f:
-        json.dump(payload, f, indent=1, default=str)
+        json.dump(C.jsonable(payload), f, indent=1, default=str)
     return os.path.relpath(path, C.VERIF)
 
 
